@@ -42,7 +42,7 @@ ENGINES = ("sync", "async")
 D1, D2 = 0.25, 0.375
 GRID = (0.125, 0.25, 0.3125, 0.375, 0.5)
 HORIZON = 1.5
-VARIANTS = ("one", "two", "stay", "named", "g_true", "g_false", "g_raise", "compound")
+VARIANTS = ("one", "two", "stay", "named", "g_true", "g_false", "g_raise", "compound", "compound-stay")
 
 
 async def slow_action(interp, ctx, event, action_def):
@@ -64,7 +64,7 @@ def make_cfg(variant: str) -> Dict[str, Any]:
         after["250"] = t1
         if variant == "two":
             after["375"] = {"target": "C", "actions": ["tr:a2"]}
-    elif variant == "stay":
+    elif variant in ("stay", "compound-stay"):
         after["250"] = {"actions": ["tr:a1"]}
         after["375"] = {"target": "C", "actions": ["tr:a2"]}
     elif variant == "named":
@@ -87,7 +87,7 @@ def make_cfg(variant: str) -> Dict[str, Any]:
         },
         "on": {"CHG": {"actions": [A.assign(lambda a: {"d": 125 if a["context"]["d"] == 250 else 250}), "tr:chg"]}},
     }
-    if variant == "compound":
+    if variant in ("compound", "compound-stay"):
         # the timed state is compound and is re-entered through a descendant target (explicit child path)
         cfg["states"]["A"].update(initial="A1", states={"A1": {}, "A2": {}})
         for st in ("B", "C", "X"):
@@ -203,7 +203,7 @@ def judge(variant: str, engine: str, script, log: List[tuple], d) -> List[Tuple[
 
 
 def _timers(variant: str) -> List[str]:
-    return ["tr:a1", "tr:a2"] if variant in ("two", "stay") else ["tr:a1"]
+    return ["tr:a1", "tr:a2"] if variant in ("two", "stay", "compound-stay") else ["tr:a1"]
 
 
 def _delay(variant: str, name: str, a: Dict[str, Any]) -> float:
